@@ -119,6 +119,20 @@ impl ObjectWriter for ObjectWriterFS {
         let relative_path = content_location_path
             .strip_prefix('/')
             .unwrap_or(content_location_path);
+        // The destination must stay inside the destination folder:
+        // refuse absolute paths and paths that go to a parent folder
+        let is_inside = std::path::Path::new(relative_path).components().all(|component| {
+            matches!(
+                component,
+                std::path::Component::Normal(_) | std::path::Component::CurDir
+            )
+        });
+        if !is_inside {
+            return Err(FluteError::new(format!(
+                "Content location {:?} is outside of the destination folder",
+                self.meta.content_location
+            )));
+        }
         let destination = self.dest.join(relative_path);
         log::info!(
             "Create destination {:?} {:?} {:?}",
